@@ -21,10 +21,10 @@ var propSpecs = []propSpec{
 	{
 		id: "C01",
 		runs: []runSpec{
-			{dir: "mux", entry: "ZZC01", quick: seq(0, []int{0, 1, 2, 3, 4, 5, 6, 7}, 8), thorough: seq(0, []int{0, 1, 2, 3, 4, 5, 6, 7}, 10)},
+			{dir: "mux", entry: "ZZC01", quick: seq(0, []int{0, 1, 2, 3, 4, 5, 6, 7, 8}, 8), thorough: seq(0, []int{0, 1, 2, 3, 4, 5, 6, 7, 8}, 10)},
 		},
 		covers:  []string{"404", "405", "options", "options-star", "served", "served-with-params"},
-		bounds:  "request path: every byte string of length <= 8 (all 256 byte values); method: each of GET HEAD POST OPTIONS DELETE PUT TRACE \"\" BOGUS plus every string of <= 3 free bytes; 8 route-table histories (Handle/Remove/Clean/Prefix.Clean, <= 8 operations) over literal, named, regexp, interceptor, ignored-name, endpoint and >=5-sibling shapes; interceptors digit/word/any",
+		bounds:  "request path: every byte string of length <= 8 (all 256 byte values); method: each of GET HEAD POST OPTIONS DELETE PUT TRACE \"\" BOGUS plus every string of <= 3 free bytes; 9 route-table histories (Handle/Remove/Clean/Prefix.Clean, <= 10 operations) over literal, named, regexp, interceptor, ignored-name, endpoint and >=5-sibling shapes; interceptors digit/word/any",
 		boundsT: "as quick, request path length <= 10",
 		outside: "longer paths; route tables other than the 8 listed histories; regexp rules other than \\d+ [a-z]+ [a-c]+ \\w*; user-defined interceptor functions; patterns with braces in literal text; reconstruction of the text consumed by '-' (ignored) parameters",
 		assume:  []string{"patterns are well-formed"},
@@ -47,10 +47,10 @@ var propSpecs = []propSpec{
 	{
 		id: "C03",
 		runs: []runSpec{
-			{dir: "mux", entry: "ZZC03", quick: []int{14, 24, 114, 124, 214, 224, 314, 324}, thorough: []int{15, 25, 35, 115, 125, 135, 215, 225, 235, 315, 325, 335}},
+			{dir: "mux", entry: "ZZC03", quick: []int{14, 24, 114, 124, 214, 224, 314, 324, 414, 424}, thorough: []int{15, 25, 35, 115, 125, 135, 215, 225, 235, 315, 325, 335, 415, 425, 435}},
 		},
 		covers:  []string{"history", "non-interference-checked"},
-		bounds:  "4 scenarios (six literal siblings + parameter sibling; five top-level routes not starting with '/'; parameters with several methods; interceptor/regexp/named at one position), every history of <= 2 operations from an 8-9 operation alphabet (Handle, Remove(pattern), Remove(pattern, methods), Clean, Prefix.Clean, Resource.Clean) after the scenario's setup; after the last step: Routes() vs model, witness requests of every pattern x 5 methods, and the same symbolic request (path <= 4 bytes, 5 methods) before and after the step",
+		bounds:  "5 scenarios (an indexed parent with a handler-less branch that is pruned over two removals; six literal siblings + parameter sibling; five top-level routes not starting with '/'; parameters with several methods; interceptor/regexp/named at one position), every history of <= 2 operations from an 8-9 operation alphabet (Handle, Remove(pattern), Remove(pattern, methods), Clean, Prefix.Clean, Resource.Clean) after the scenario's setup; after the last step: Routes() vs model, witness requests of every pattern x 5 methods, and the same symbolic request (path <= 4 bytes, 5 methods) before and after the step",
 		boundsT: "as quick with histories of <= 3 operations and symbolic paths <= 5 bytes",
 		outside: "longer histories, other pattern pools, paths longer than the bound",
 		assume:  []string{"the non-interference clause is asserted for every request that was dispatched to a route the step does not name"},
@@ -70,14 +70,14 @@ var propSpecs = []propSpec{
 	{
 		id: "C05",
 		runs: []runSpec{
-			{dir: "mux", entry: "ZZC05Req", quick: seq(0, []int{0, 1, 2, 3, 4, 5, 6, 7}, 8), thorough: seq(0, []int{0, 1, 2, 3, 4, 5, 6, 7}, 11)},
+			{dir: "mux", entry: "ZZC05Req", quick: seq(0, []int{0, 1, 2, 3, 4, 5, 6, 7, 8}, 8), thorough: seq(0, []int{0, 1, 2, 3, 4, 5, 6, 7, 8}, 11)},
 			{dir: "mux", entry: "ZZC05Grp", quick: []int{33}, thorough: []int{54}},
 			{dir: "mux", entry: "ZZC05Host", quick: []int{6}, thorough: []int{9}},
 			{dir: "mux", entry: "ZZC05Ver", quick: []int{6}, thorough: []int{10}},
 			{dir: "mux", entry: "ZZC05Pat", quick: []int{6}, thorough: []int{8}},
 		},
 		covers:  []string{"request", "group-request", "host-match", "version-match", "handle-registered", "handle-rejected"},
-		bounds:  "Router.ServeHTTP: path = every byte string <= 8 bytes (incl. \"\", \"*\", non-UTF-8), method = every byte string <= 4 bytes, on the 8 route-table histories of C01 (which include Remove/Clean/Prefix.Clean states); Group.ServeHTTP with Hosts, path-version, header-version and And matchers: Host <= 3 ASCII bytes, path <= 3 bytes, 5 methods, 6 Accept headers; Hosts.Match: Host <= 6 ASCII bytes on 9 domains after a Delete; path-version matcher: path <= 6 bytes; patterns: every byte string <= 6 bytes into CheckSyntax, URL, Router.URL (strict and not), Handle on an empty and on a populated router",
+		bounds:  "Router.ServeHTTP: path = every byte string <= 8 bytes (incl. \"\", \"*\", non-UTF-8), method = every byte string <= 4 bytes, on the 9 route-table histories of C01 (which include Remove/Clean/Prefix.Clean states); Group.ServeHTTP with Hosts, path-version, header-version and And matchers: Host <= 3 ASCII bytes, path <= 3 bytes, 5 methods, 6 Accept headers; Hosts.Match: Host <= 6 ASCII bytes on 9 domains after a Delete; path-version matcher: path <= 6 bytes; patterns: every byte string <= 6 bytes into CheckSyntax, URL, Router.URL (strict and not), Handle on an empty and on a populated router",
 		boundsT: "paths <= 11, Group host <= 5 / path <= 4, Hosts host <= 9, patterns <= 8 bytes",
 		outside: "longer inputs (the math.MaxInt16 segment limit is not reachable); Host bytes >= 0x80 (strings.ToLower is modelled for ASCII only); arbitrary Accept headers (mime.ParseMediaType runs natively on 6 concrete headers); panics raised by user handlers or interceptors",
 		assume:  []string{"regexp.Compile on a symbolic expression is an uninterpreted, consistent function of its bytes that never panics"},
@@ -100,10 +100,10 @@ var propSpecs = []propSpec{
 	{
 		id: "C17",
 		runs: []runSpec{
-			{dir: "mux", entry: "ZZC17", quick: []int{2002, 12002, 22002, 32002}, thorough: []int{3003, 13003, 23003, 33003}},
+			{dir: "mux", entry: "ZZC17", quick: []int{2002, 12002, 22002, 32002, 122001, 222001, 312001, 422001}, thorough: []int{3003, 13003, 23003, 33003, 122002, 222002, 312002, 422002, 102002, 202002}},
 		},
 		covers:  []string{"accepted", "rejected"},
-		bounds:  "4 route tables; one Handle call with a pattern from a 16-pattern pool (live, name variants, '-' variants, rule variants, new, 6 malformed) and a method list of <= 2 entries from {GET, POST, HEAD, OPTIONS, unknown}, single-entry lists with every method string of <= 3 bytes; compared before/after a rejected call: Routes(), the Allow header of every live pattern (OPTIONS and 405), and the outcome of the same symbolic request (path <= 2 bytes x 3 methods); accept/reject clauses against an independent shape comparison",
+		bounds:  "4 route tables, optionally after an earlier Handle that was rejected for its method (it may leave handler-less nodes behind); one Handle call with a pattern from a 16-pattern pool (live, name variants, '-' variants, rule variants, new, 6 malformed) and a method list of <= 2 entries from {GET, POST, HEAD, OPTIONS, unknown}, single-entry lists with every method string of <= 3 bytes; compared before/after a rejected call: Routes(), the Allow header of every live pattern (OPTIONS and 405), and the outcome of the same symbolic request (path <= 2 bytes x 3 methods); accept/reject clauses against an independent shape comparison",
 		boundsT: "method lists of <= 3 entries, probe path <= 3 bytes",
 		outside: "longer method lists; other pools; effects of a rejected call on strict URL building",
 		stubs:   stdStubs,
@@ -159,10 +159,10 @@ var propSpecs = []propSpec{
 	{
 		id: "C13",
 		runs: []runSpec{
-			{dir: "mux", entry: "ZZC13", quick: []int{44, 134, 234}, thorough: []int{45, 145, 245}},
+			{dir: "mux", entry: "ZZC13", quick: []int{44, 134, 234, 334}, thorough: []int{45, 145, 245, 345}},
 		},
 		covers:  []string{"router-accepts", "group-served", "group-404"},
-		bounds:  "3 groups of 3 routers whose matchers are built from path-version, Hosts (literal and parameterised domains), header-version, And, Or (nested) and nil; optional Remove of each router; a duplicate-name New; request: Host = every ASCII string of <= 3-4 bytes, path = every string of <= 4 bytes, Accept from a table of 6 headers; reference: independent matchers evaluated on the original request (first accepting router, rewritten path, matcher parameters), then that router alone on the rewritten request",
+		bounds:  "4 groups of 3 routers whose matchers are built from path-version, Hosts (literal and parameterised domains), header-version, And, Or (nested) and nil; optional Remove of each router; a duplicate-name New; request: Host = every ASCII string of <= 3-4 bytes, path = every string of <= 4 bytes, Accept from a table of 6 headers; reference: independent matchers evaluated on the original request (first accepting router, rewritten path, matcher parameters), then that router alone on the rewritten request",
 		boundsT: "Host <= 4, path <= 5 bytes",
 		outside: "other matcher combinations; arbitrary Accept headers; Host bytes >= 0x80; histories of Use after New",
 		stubs:   append(append([]string{}, stdStubs...), "strings.ToLower (ASCII), mime.ParseMediaType on concrete headers: the real function"),
@@ -170,10 +170,10 @@ var propSpecs = []propSpec{
 	{
 		id: "C14",
 		runs: []runSpec{
-			{dir: "mux", entry: "ZZC14", quick: []int{105, 205, 1105, 1205}, thorough: []int{306, 1306}},
+			{dir: "mux", entry: "ZZC14", quick: []int{106, 205, 1105, 1205, 2204}, thorough: []int{306, 1306, 2305}},
 		},
 		covers:  []string{"host-history", "host-accepted", "host-rejected", "host-params"},
-		bounds:  "2 operation alphabets of 8 operations (Add/Delete of literal and parameterised domains in mixed case, Delete of an unknown domain, a 6-literal bundle plus a wildcard domain, RegisterInterceptor + interceptor domain), every history of <= 2 operations; Host = every ASCII string of <= 5 bytes (case, ':port', brackets, invalid ports all included); reference: own normaliser + the C02 reference resolver over the lower-cased live domain set, parameters compared",
+		bounds:  "3 operation alphabets of 4-9 operations (Add/Delete of literal and parameterised domains in mixed case, Delete of an unknown domain, a 6-literal bundle plus a wildcard domain, RegisterInterceptor + interceptor domain, an IPv6 literal, two domains sharing a first byte under an indexed root that are deleted one after the other), every history of <= 2 operations; Host = every ASCII string of <= 5 bytes (<= 6 after single operations, <= 4 for the third alphabet) (case, ':port', brackets, invalid ports all included); reference: own normaliser + the C02 reference resolver over the lower-cased live domain set, parameters compared",
 		boundsT: "histories of <= 3 operations, Host <= 6 bytes",
 		outside: "Host bytes >= 0x80 (Unicode case folding); longer hosts; the empty host and \"*\"",
 		stubs:   append(append([]string{}, stdStubs...), "strings.ToLower: exact for ASCII"),
@@ -193,11 +193,11 @@ var propSpecs = []propSpec{
 	{
 		id: "C16",
 		runs: []runSpec{
-			{dir: "mux", entry: "ZZC16", quick: []int{21, 121, 221, 321, 421}, thorough: []int{12, 112, 212, 312, 412, 30, 230}},
+			{dir: "mux", entry: "ZZC16", quick: []int{11, 111, 211, 311, 411, 20, 120, 220, 320}, thorough: []int{12, 112, 212, 312, 412, 21, 121, 221, 321, 421, 30, 230}},
 		},
 		covers:  []string{"normal-request", "panic-contained", "panic-passes-through"},
-		bounds:  "Router and Group (router created by Group.New) with WithRecovery, without it, and Router with WithStatusRecovery; every sequence of 2 requests, each of 7 kinds (route handler behind Use and route middlewares, HEAD, OPTIONS, 405, 404, TRACE, group not-found), panicking or not, with a symbolic panic value (any int64 or any string of <= 2 bytes) and a symbolic parameter value of <= 1 byte",
-		boundsT: "1 request with values <= 2 bytes, 3 requests with empty values",
+		bounds:  "Router and Group (router created by Group.New) with WithRecovery, without it, and Router with WithStatusRecovery; one request with a symbolic parameter value of <= 1 byte and every sequence of 2 requests with an empty one, each request of 7 kinds (route handler behind Use and route middlewares, HEAD, OPTIONS, 405, 404, TRACE, group not-found), panicking or not, with a symbolic panic value (any int64, any string of <= 2 bytes) or http.ErrAbortHandler",
+		boundsT: "1 request with values <= 2 bytes, 2 requests with values <= 1 byte, 3 requests with empty values",
 		outside: "panics raised by the RecoverFunc itself or by matchers; routers added to a group with Group.Add; the other bundled recovery options (they differ only in logging, which is stubbed)",
 		stubs:   append(append([]string{}, stdStubs...), "net/http.Error: its documented effect on the writer; logging and stack dumps: empty bodies"),
 	},
